@@ -202,6 +202,17 @@ def binop(it, op, a, b, inplace=False):
 
 def _identity_eq(it, a, b):
     """`is` on two values -> python bool or z3 Bool"""
+    sa = isinstance(a, Opaque) and a.kind == "symref"
+    sb = isinstance(b, Opaque) and b.kind == "symref"
+    if sa or sb:
+        if sa and sb:
+            return a.attrs["term"] == b.attrs["term"]
+        other = b if sa else a
+        if other is None or isinstance(other, (bool, int, str, float, tuple)):
+            return False
+        if isinstance(other, SV) and other.kind == "val":
+            return (a if sa else b).attrs["term"] == other.t
+        return False
     if isinstance(a, SV) or isinstance(b, SV):
         if isinstance(a, SV) and isinstance(b, SV) and a.kind == b.kind:
             return a.t == b.t
@@ -226,6 +237,8 @@ def _identity_eq(it, a, b):
 
 def _eq(it, a, b):
     """`==` -> python bool or z3 Bool"""
+    if (isinstance(a, Opaque) and a.kind == "symref") or (isinstance(b, Opaque) and b.kind == "symref"):
+        return _identity_eq(it, a, b)  # disposables/observers do not define __eq__
     if isinstance(a, SV) or isinstance(b, SV):
         ka = a.kind if isinstance(a, SV) else None
         kb = b.kind if isinstance(b, SV) else None
@@ -601,7 +614,15 @@ def list_method(it, lst: ListObj, name):
     def remove(it_, args, kw):
         (x,) = args
         if lst.symbolic:
-            raise Unsupported("remove on symbolic list")
+            xv = it.to_val(x)
+            if not it.ctx.branch(z3.Contains(lst.term, z3.Unit(xv)), "list.remove: present"):
+                raise PyExc(it.make_exc("ValueError", "list.remove(x): x not in list"))
+            pre = it.ctx.fresh("pre", "seq")
+            post = it.ctx.fresh("post", "seq")
+            it.ctx.assume(z3.And(lst.term == z3.Concat(pre.t, z3.Unit(xv), post.t),
+                                 z3.Not(z3.Contains(pre.t, z3.Unit(xv)))))
+            lst.term = z3.Concat(pre.t, post.t)
+            return None
         for i, y in enumerate(lst.items):
             e = _eq(it, y, x)
             if (e if isinstance(e, bool) else it.ctx.branch(e, "list.remove ==")):
@@ -631,7 +652,13 @@ def list_method(it, lst: ListObj, name):
         "count": count, "appendleft": lambda i, a, k: insert(i, [0, a[0]], {}),
     }
     if name in table:
-        return Native(f"list.{name}", table[name])
+        fn = table[name]
+        if it.list_hook is not None and name not in ("copy", "index", "count"):
+            def hooked(it_, args, kw, _fn=fn, _name=name):
+                it.list_hook(it, lst, _name, args)
+                return _fn(it_, args, kw)
+            return Native(f"list.{name}", hooked)
+        return Native(f"list.{name}", fn)
     raise PyExc(it.make_exc("AttributeError", f"list has no {name}"))
 
 
